@@ -132,6 +132,24 @@ func c10Formats() []c10Fmt {
    {"name":"grp","type":"segment_group","is_target":true,"min":0,"max":-1,"child_segments":[{"name":"H","elements":[{"name":"id","index":1},{"name":"v","index":2}]},{"name":"D","min":0,"max":-1,"elements":[{"name":"w","index":1}]}]}]},{"name":"IEA"}]},
  "transform_declarations":{"FINAL_OUTPUT":{"object":{"id":{"xpath":"H/id"},"v":{"xpath":"H/v","type":"float"},"w":{"array":[{"xpath":"D/w"}]}}}}}`,
 			Prefix: "ISA~", Suffix: "IEA~", Syms: "ABGH", Rec: map[byte]string{'A': "H*1*1.5~D*a~", 'B': "H*2*2~", 'G': "H*3*NaN~D*b~D*c~", 'H': "H*4*Inf~"}},
+		// records that differ only in what a lossy rendering of the record does not show: an attribute of a
+		// text-only element, the order of differently named children, text between the children; and a
+		// record equal to its neighbour except for where its two values are split ("AB"+"12" / "A"+"B12")
+		{Name: "xml-near-twins", Schema: `{` + h("xml") + `,"transform_declarations":{"FINAL_OUTPUT":{"xpath":"/r/o","object":{
+  "sku":{"xpath":"sku"},"cur":{"xpath":"price/@cur"},"price":{"xpath":"price"},"first":{"xpath":"*[1]"},"txt":{"xpath":"text()[1]"},
+  "js":{"custom_func":{"name":"javascript","args":[{"const":"s + '-' + n"},{"const":"s"},{"xpath":"s"},{"const":"n"},{"xpath":"n"}]}}}}}}`,
+			Prefix: "<r>", Suffix: "</r>", Syms: "ABGHKL", Rec: map[byte]string{
+				'A': `<o><sku>X1</sku><price cur="USD">9.5</price><s>AB</s><n>12</n></o>`,
+				'B': `<o><sku>X1</sku><price cur="EUR">9.5</price><s>AB</s><n>12</n></o>`,
+				'G': `<o><price cur="USD">9.5</price><sku>X1</sku><s>AB</s><n>12</n></o>`,
+				'H': `<o><sku>X1</sku>t<price cur="USD">9.5</price><s>AB</s><n>12</n></o>`,
+				'K': `<o><sku>X1</sku><price cur="USD">9.5</price><s>A</s><n>B12</n></o>`,
+				'L': `<o><sku>X1</sku><price cur="USD">9.5</price><s>AB1</s><n>2</n></o>`}},
+		{Name: "csv-near-twins", Schema: `{` + h("csv") + `,"file_declaration":{"delimiter":",","data_row_index":1,"columns":[{"name":"s"},{"name":"n"},{"name":"k"}]},
+ "transform_declarations":{"FINAL_OUTPUT":{"object":{"k":{"xpath":"k"},
+  "js":{"custom_func":{"name":"javascript","args":[{"const":"s + '-' + n"},{"const":"s"},{"xpath":"s"},{"const":"n"},{"xpath":"n"}]}},
+  "js3":{"custom_func":{"name":"javascript","args":[{"const":"[a, b, c].join('|')"},{"const":"a"},{"xpath":"s"},{"const":"b"},{"xpath":"n"},{"const":"c"},{"xpath":"k"}]}}}}}}`,
+			Syms: "ABKLM", Rec: map[byte]string{'A': "AB,12,1\n", 'B': "AB,12,2\n", 'K': "A,B12,1\n", 'L': "AB1,2,1\n", 'M': "AB,1,21\n"}},
 		// records that are members of JSON objects (keyed by position) inside containers that repeat, and
 		// a target xpath with a filter: F is a record the filter turns down, '|' starts the next container;
 		// neither is a record, and neither may change what the records around it give
